@@ -871,13 +871,11 @@ class BlockChain(object):
         if offset % pinned_block.alignment != 0:
             raise RuntimeError('Bad alignment')
 
+        new_offsets = []
         for block in self.blocks[:self.pinned_block_idx - 1:-1]:
             new_offset = offset - block.size
             new_offset = new_offset - new_offset % pinned_block.alignment
-            fix_loc_offset(self.loc_db,
-                           block.loc_key,
-                           new_offset,
-                           modified_loc_keys)
+            new_offsets.append((block, new_offset))
 
         # Propagate offset to blocks after pinned block
         offset = self.loc_db.get_location_offset(pinned_block.loc_key) + pinned_block.size
@@ -885,12 +883,22 @@ class BlockChain(object):
         last_block = pinned_block
         for block in self.blocks[self.pinned_block_idx + 1:]:
             offset += (- offset) % last_block.alignment
-            fix_loc_offset(self.loc_db,
-                           block.loc_key,
-                           offset,
-                           modified_loc_keys)
+            new_offsets.append((block, offset))
             offset += block.size
             last_block = block
+
+        # A block may take the former offset of one of its neighbours: release
+        # the offsets which change before assigning the new ones
+        for block, new_offset in new_offsets:
+            cur_offset = self.loc_db.get_location_offset(block.loc_key)
+            if cur_offset is not None and cur_offset != new_offset:
+                self.loc_db.unset_location_offset(block.loc_key)
+                modified_loc_keys.add(block.loc_key)
+        for block, new_offset in new_offsets:
+            fix_loc_offset(self.loc_db,
+                           block.loc_key,
+                           new_offset,
+                           modified_loc_keys)
         return modified_loc_keys
 
 
